@@ -199,13 +199,16 @@ pub fn c03exec(args: &[String]) {
     std::thread::spawn(|| {
         let mut last = HEARTBEAT.load(Ordering::Relaxed);
         let mut since = std::time::Instant::now();
+        let mut since_cpu = cpu_ticks(None);
         loop {
             std::thread::sleep(std::time::Duration::from_millis(500));
             let now = HEARTBEAT.load(Ordering::Relaxed);
             if now != last {
                 last = now;
                 since = std::time::Instant::now();
-            } else if since.elapsed().as_secs() > 30 {
+                since_cpu = cpu_ticks(None);
+            } else if cpu_ticks(None) - since_cpu > 3000 || since.elapsed().as_secs() > 1200 {
+                // 30 s of CPU time (or 20 min of wall time) without a step forward
                 println!("{}", json!({"hang": CURRENT_CASE.load(Ordering::Relaxed)}));
                 std::process::exit(3);
             }
